@@ -396,19 +396,23 @@ class CachedFcn(UserFcn):
         f(4.56)   # computes the function again at a new point
     """
 
+    @staticmethod
+    def _same(x, y):
+        if x is y:
+            return True
+        try:
+            return bool(np.array_equal(x, y))
+        except Exception:
+            # e.g. dicts or records holding arrays: not comparable, so not a cache hit
+            return False
+
     def __call__(self, *args, **kwds):
         if (
             hasattr(self, "lastArgs")
             and len(args) == len(self.lastArgs)
-            and (
-                all(x is y for x, y in zip(args, self.lastArgs))
-                or all(np.array_equal(x, y) for x, y in zip(args, self.lastArgs))
-            )
+            and all(self._same(x, y) for x, y in zip(args, self.lastArgs))
             and set(kwds.keys()) == set(self.lastKwds.keys())
-            and (
-                all(kwds[k] is self.lastKwds[k] for k in kwds)
-                or all(np.array_equal(kwds[k], self.lastKwds[k]) for k in kwds)
-            )
+            and all(self._same(kwds[k], self.lastKwds[k]) for k in kwds)
         ):
             return self.lastReturn
         self.lastArgs = args
